@@ -55,7 +55,11 @@ META = {
              'a pool of SelectResults OBJECTS being kept and asked again (count, iteration, aggregates, getOne) after the mutations; a transaction stream '
              '(file-backed database: rows cached through the class connection, then a Transaction doing 0..160 lookups, updates through objects fetched '
              'before or after them, 0..3 deletes of one class, inserts, commit or rollback; afterwards select / orderBy / reversed / selectBy / byName / get of '
-             'every live and every deleted id / count / sum / min / max through the class connection against the raw rows); seeded random after a '
+             'every live and every deleted id / count / sum / min / max through the class connection against the raw rows); a several-connections stream '
+             '(one class used through its own connection and 2..4 further connection objects -- file-based SQLite databases created one after the other in the '
+             'same thread, in-memory ones -- holding different rows under the same names and ids; interleaved inserts / updates / deletes; select / orderBy with '
+             'list and tuple / reversed / selectBy / count / distinct count / sum / min / max / avg / byName / getOne with connection=c and through '
+             '.connection(c) against the rows read from c\'s file with a private sqlite3 connection); seeded random after a '
              'hand-written corpus; distinct = distinct (table contents, query); non-trivial = the query has a filter, an order, distinct, '
              'an aggregate or a lookup'),
     'trusted': ['reference SQL semantics in Model/Query.lean (three-valued logic, NULLs first, aggregate conventions, DISTINCT) — '
@@ -69,6 +73,8 @@ META = {
                     'list(set) / repr / sqlrepr of non-DESC values / the database (queryOne, cursor.fetchone) are arbitrary functions; _SO_columnClause: the Python names '
                     'id / column names / foreign names of the class are distinct (NoClash) and an instance used as a value renders as its id; each theorem states '
                     'what the method calls it makes return; assert / raise messages are not evaluated; one alias (self.ops = ops) is modelled by write-through',
+                    'connections: the model gives every connection object its own database (Store); that SQLiteConnection objects do not share state is '
+                    'tied by the several-connections stream (oracle only)',
                     'a SelectResults object is a description of a query, not a snapshot: the model evaluates it as a function of the current table, '
                     'and the harness ties that by re-evaluating retained objects after mutations',
                     'ids are a key of the table (PRIMARY KEY); used for COUNT(DISTINCT id) = number of distinct rows',
@@ -1420,6 +1426,218 @@ def run_tx_stream(ctx):
                             % (sc['end'], sc['steps'], sc['rows'], '; '.join(after[:4])), desc)
 
 
+# ---------------------------------------------------------------------------------- several connections
+# The same class used through several independent connection objects (file-based SQLite databases created one
+# after the other in the same thread, an in-memory one, the class's own): a select / selectBy / count /
+# aggregate / lookup with `connection=c` (or `.connection(c)` on an existing select) must equal the query over
+# the rows of c's database -- whatever was written through the other connections, which hold other rows
+# under the same names and ids.  Oracle: the rows read from c's FILE with a private `sqlite3` connection
+# (nothing of sqlobject's connection machinery is involved) + a Python evaluation.
+
+_mcenv = {}
+MC_NAMES = ['n0', 'n1', 'n2', 'n3', 'n4']
+
+
+def mc_env():
+    if _mcenv:
+        return _mcenv
+    import atexit
+    import shutil
+    import tempfile
+    sqlo.setup()
+    from sqlobject import SQLObject, IntCol, StringCol
+    d = tempfile.mkdtemp(prefix='c11mc_', dir='/dev/shm' if os.path.isdir('/dev/shm') else None)
+    atexit.register(shutil.rmtree, d, True)
+    home = sqlo.mem_conn()
+
+    class C11Mc(SQLObject):
+        _connection = home
+        name = StringCol(alternateID=True)
+        v = IntCol(default=None)
+        w = IntCol(default=None)
+    C11Mc.createTable()
+    _mcenv.update(cls=C11Mc, home=home, dir=d, n=[0])
+    return _mcenv
+
+
+def gen_mc_scenario(rng):
+    kinds = ['file', 'file'] + rng.choice([[], ['file'], ['memory'], ['file', 'memory']])
+    rng.shuffle(kinds)
+    kinds = ['home'] + kinds              # connection 0 is the class's own
+    nc = len(kinds)
+    steps = []
+    live = [set() for _ in range(nc)]
+    dom = [None, 0, 1, 2, 5, -3]
+    for _ in range(rng.choice([3, 5, 8, 12])):
+        c = rng.randrange(nc)
+        r = rng.random()
+        if r < 0.55 or not live[c]:
+            free = [n for n in MC_NAMES if n not in live[c]]
+            if not free:
+                continue
+            n = rng.choice(free)
+            live[c].add(n)
+            steps.append(['ins', c, n, rng.choice(dom), rng.choice(dom)])
+        elif r < 0.8:
+            steps.append(['upd', c, rng.choice(sorted(live[c])), rng.choice(dom)])
+        else:
+            n = rng.choice(sorted(live[c]))
+            live[c].discard(n)
+            steps.append(['del', c, n])
+        if rng.random() < 0.35:
+            steps.append(['check'])
+    steps.append(['check'])
+    return {'conns': kinds, 'steps': steps, 'if_not_exists': rng.random() < 0.7}
+
+
+def mc_truth(kind, conn, path, table):
+    """rows of one database, read without sqlobject for a file"""
+    if kind == 'file':
+        import sqlite3
+        raw = sqlite3.connect(path)
+        try:
+            return [tuple(r) for r in raw.execute('SELECT id, name, v, w FROM %s ORDER BY id' % table)]
+        except sqlite3.OperationalError:
+            return []                      # no such table in this file: nothing was stored in it
+        finally:
+            raw.close()
+    return [tuple(r) for r in conn.queryAll('SELECT id, name, v, w FROM %s ORDER BY id' % table)]
+
+
+def mc_check(cls, ci, conn, explicit, truth, other):
+    """every way of reading through connection `ci` against the rows of ITS database"""
+    from sqlobject import SQLObjectNotFound
+    bad = []
+    ckw = {'connection': conn} if explicit else {}
+    tag = 'connection=#%d' % ci if explicit else 'class connection'
+
+    def shown(sel):
+        return [None if r is None else (r.id, r.name, r.v, r.w) for r in sel]
+
+    def cmp(what, got, want):
+        if got != want:
+            bad.append('%s [%s]: %r, the rows of that database give %r' % (what, tag, got, want))
+    cmp("select(orderBy='id')", shown(cls.select(orderBy='id', **ckw)), truth)
+    want = sorted(truth, key=lambda t: (_nf(t[2]), -t[0]))
+    cmp("select(orderBy=['v','-id'])", shown(cls.select(orderBy=['v', '-id'], **ckw)), want)
+    cmp("select(orderBy=('v','-id')).reversed()", shown(cls.select(orderBy=('v', '-id'), **ckw).reversed()), want[::-1])
+    if explicit and other is not None:
+        # a select built for another connection, redirected with .connection(c)
+        sel = cls.select(cls.q.v != None, orderBy='-id', connection=other).connection(conn)     # noqa: E711
+        w = [t for t in truth if t[2] is not None][::-1]
+        cmp('select(v != None, connection=other).connection(c)', shown(sel), w)
+        cmp('… .count()', sel.count(), len(w))
+        cmp('… .sum(v)', sel.sum('v'), sum(t[2] for t in w) if w else None)
+    for val in sorted(set(t[2] for t in truth) | {1}, key=_nf):
+        w = [t for t in truth if t[2] == val]
+        cmp('selectBy(v=%r).orderBy(id)' % (val,), shown(cls.selectBy(v=val, **ckw).orderBy('id')), w)
+        cmp('select(q.v == %r).count()' % (val,), cls.select(cls.q.v == val, **ckw).count(), len(w))
+        cmp('selectBy(v=%r).distinct().count()' % (val,), cls.selectBy(v=val, **ckw).distinct().count(), len(w))
+    vals = [t[2] for t in truth if t[2] is not None]
+    sel = cls.select(**ckw)
+    avg = sel.avg('v')
+    cmp('count/sum/min/max/avg(v)', (sel.count(), sel.sum('v'), sel.min('v'), sel.max(cls.q.v),
+                                    None if avg is None else Fraction(avg).limit_denominator(1000)),
+        (len(truth), sum(vals) if vals else None, min(vals) if vals else None, max(vals) if vals else None,
+         Fraction(sum(vals), len(vals)) if vals else None))
+    by_name = {t[1]: t for t in truth}
+    for n in MC_NAMES:
+        try:
+            r = cls.byName(n, **ckw)
+            got = None if r is None else (r.id, r.name, r.v, r.w)
+        except SQLObjectNotFound:
+            got = 'not-found'
+        cmp('byName(%r)' % n, got, by_name.get(n, 'not-found'))
+        r = cls.selectBy(name=n, **ckw).getOne(DEFAULT)
+        cmp('selectBy(name=%r).getOne(default)' % n, 'default' if r is DEFAULT else (r.id, r.name, r.v, r.w) if r is not None else None,
+            by_name.get(n, 'default'))
+    return bad
+
+
+def run_mc_scenario(sc):
+    """-> list of discrepancies (text); exceptions of the real code are discrepancies too"""
+    from sqlobject.sqlite.sqliteconnection import SQLiteConnection
+    e = mc_env()
+    cls, home = e['cls'], e['home']
+    table = cls.sqlmeta.table
+    home.query('DELETE FROM %s' % table)
+    home.cache.clear()
+    conns, paths = [], []
+    bad = []
+    try:
+        for k in sc['conns']:
+            if k == 'home':
+                conns.append(home)
+                paths.append(None)
+                continue
+            e['n'][0] += 1
+            path = os.path.join(e['dir'], 'db%d.sqlite' % e['n'][0]) if k == 'file' else None
+            c = SQLiteConnection(path) if k == 'file' else sqlo.mem_conn()
+            if k == 'file':
+                c.query('PRAGMA synchronous=OFF')
+            conns.append(c)
+            paths.append(path)
+            cls.createTable(ifNotExists=sc['if_not_exists'], connection=c)
+
+        def ckw(ci):
+            return {} if ci == 0 else {'connection': conns[ci]}
+        for st in sc['steps']:
+            if st[0] == 'ins':
+                cls(name=st[2], v=st[3], w=st[4], **ckw(st[1]))
+            elif st[0] == 'upd':
+                cls.byName(st[2], **ckw(st[1])).v = st[3]
+            elif st[0] == 'del':
+                cls.byName(st[2], **ckw(st[1])).destroySelf()
+            else:
+                for ci, c in enumerate(conns):
+                    truth = mc_truth(sc['conns'][ci], c, paths[ci], table)
+                    other = conns[(ci + 1) % len(conns)]
+                    found = mc_check(cls, ci, c, ci != 0, truth, other)
+                    if ci == 0:      # the class's own connection given explicitly too
+                        found += mc_check(cls, ci, c, True, truth, other)
+                    bad += ['after %d step(s), %s database #%d: %s' % (sc['steps'].index(st), sc['conns'][ci], ci, x)
+                            for x in found[:3]]
+                if bad:
+                    break
+    except Exception as ex:
+        bad.append('raised %s: %s' % (exc_out(ex), str(ex)[:200]))
+    finally:
+        for c, k in zip(conns, sc['conns']):
+            if k != 'home':
+                try:
+                    c.close()
+                except Exception:
+                    pass
+        for p in paths:
+            if p and os.path.exists(p):
+                os.remove(p)
+    return bad
+
+
+def mc_key(sc):
+    return 'C11:connections:%s' % json.dumps(sc, sort_keys=True, separators=(',', ':'))
+
+
+def run_mc_stream(ctx):
+    corpus = [
+        # two file databases written one after the other, same names and ids, different values
+        {'conns': ['home', 'file', 'file'], 'if_not_exists': True,
+         'steps': [['ins', 1, 'n0', 1, 1], ['ins', 1, 'n1', 2, None], ['check'], ['ins', 2, 'n0', 5, 0], ['check'],
+                   ['ins', 0, 'n0', -3, 2], ['upd', 2, 'n0', None], ['del', 1, 'n1'], ['check']]},
+        {'conns': ['home', 'file', 'memory', 'file'], 'if_not_exists': False,
+         'steps': [['ins', 3, 'n2', 0, 0], ['ins', 2, 'n2', 1, 1], ['ins', 1, 'n2', 2, 2], ['ins', 3, 'n3', None, 5], ['check'],
+                   ['del', 3, 'n2'], ['check']]},
+    ]
+    scenarios = corpus + [gen_mc_scenario(ctx.rng) for _ in range(ctx.budget(25, 400))]
+    for sc in scenarios:
+        bad = run_mc_scenario(sc)
+        ctx.case(('mc', json.dumps(sc, sort_keys=True)), nontrivial=True,
+                 sample={'scenario': sc, 'discrepancies': bad[:2]},
+                 kind='connections:%d(%s)' % (len(sc['conns']), '+'.join(sorted(set(sc['conns'])))))
+        if bad:
+            ctx.oracle_fail(mc_key(sc), 'several connections %s, steps %s: %s' % (sc['conns'], sc['steps'], '; '.join(bad[:3])),
+                            {'mc': sc, 'tag': 'connections'})
+
 
 def corpus_cases():
     d = os.path.join(os.path.dirname(os.path.dirname(os.path.abspath(__file__))), 'corpus', 'C11')
@@ -1437,6 +1655,7 @@ def run(ctx):
     env()
     rng = ctx.rng
     run_tx_stream(ctx)
+    run_mc_stream(ctx)
     for fn, c in corpus_cases():
         run_table(ctx, c['table'], [(ph.get('mutations', []), ph['queries']) for ph in c['phases']], 'corpus:' + fn)
     n_tables = ctx.budget(550, 14000)
@@ -1447,6 +1666,9 @@ def run(ctx):
 
 
 def replay(case):
+    if 'mc' in case:
+        bad = run_mc_scenario(case['mc'])
+        return not bad, 'several connections: %s\n%s' % (case['mc'], '\n'.join(bad) or 'agrees')
     if 'tx' in case:
         before, after, err = run_tx_scenario(case['tx'])
         bad = ([err] if err else []) + before + after
